@@ -17,6 +17,7 @@ import (
 	"sync/atomic"
 	"time"
 
+	"verifharness/internal/hooklife"
 	"verifharness/internal/hx"
 	"verifharness/internal/srv"
 )
@@ -501,6 +502,9 @@ func run(r *hx.Result, cfg hx.Config) {
 		}
 		r.Sample(5, map[string]interface{}{"mode": "kill-under-load", "connections": nconn, "acked": acked, "sent": sent})
 	}
+
+	// ---- hooks and channels against the life-cycle model (coq/Model/HookLife.v, Props/C03hk.v) ----
+	hooklife.RunC03(r, cfg)
 }
 
 func firstDiff(a, b string) string {
